@@ -227,6 +227,7 @@ def order_types(thr_vals):
 
 def run(ctx):
     helpers.run_for(ctx)
+    prune.check_interval_guard(ctx, 'C17.R7', 'partial_hard_tanh', 'min_val', 'max_val')
     prune.check_index_guards(ctx, 'C17.R7', ['partial_ReLU', 'partial_leaky_ReLU', 'partial_hard_tanh', 'partial_hard_shrink', 'partial_hard_sigmoid', 'partial_threshold', 'class_characterization'], min_dim={'class_characterization': 2})
     helpers.share_from(ctx, 'c09', 'C17.R6', ['AffTree::evaluate_decision#', 'AffTree::index_from_label#', 'AffTree::find_terminal#', 'AffTree::evaluate#'])
     F = ctx.facts
